@@ -239,6 +239,27 @@ def run(chk):
         return "stores built by the constructors have the requested counts and shapes"
     chk.run("C08.R3", f"{MOD}:__post_init__ of the generators", {}, go_ctor_shapes, construct="constructor store shapes")
 
+    # bounds that are zero are bounds: a time interval ending at 0, a box with 0 among its corners (the constructors keep the
+    # values they were given)
+    def go_ctor_zero_bounds():
+        key = Sym('key')
+        ode = G.cls("DataGeneratorODE")(key, 60, -2.0, 0.0, 7)
+        for f_, want in (('tmin', -2.0), ('tmax', 0.0)):
+            if ode.fields[f_] != want:
+                raise Violation(f"DataGeneratorODE.{f_}", f"{f_} = {ode.fields[f_]} after construction with {want}", str(want))
+        g = G.cls("CubicMeshPDENonStatio")(key=key, n=64, nb=48, omega_batch_size=5, omega_border_batch_size=3, dim=2,
+                                            min_pts=(0.0, -1.0), max_pts=(1.0, 0.0), temporal_batch_size=7, tmin=-2.0, tmax=0.0, nt=40)
+        for f_, want in (('tmin', -2.0), ('tmax', 0.0)):
+            if g.fields[f_] != want:
+                raise Violation(f"CubicMeshPDENonStatio.{f_}", f"{f_} = {g.fields[f_]} after construction with {want}", str(want))
+        for f_, want in (('min_pts', (0.0, -1.0)), ('max_pts', (1.0, 0.0))):
+            got = tuple(float(x) for x in g.fields[f_])
+            if got != want:
+                raise Violation(f"CubicMeshPDENonStatio.{f_}", f"{f_} = {got}", str(want))
+        return "tmin, tmax, min_pts, max_pts kept as given (zeros included)"
+    chk.run("C08.R3", f"{MOD}:__post_init__ of the generators", {"bounds": "tmax = 0, zeros among the corners"}, go_ctor_zero_bounds,
+            construct="constructor keeps zero bounds")
+
     # ---------------- R4 grid
     # (a) symbolic counts: the only thing read off the term is a float-step `arange(lower, upper, step)` over a domain axis, whose
     #     number of points is not guaranteed; every other way of writing a grid is left to the concrete tables of (b)
